@@ -2509,15 +2509,24 @@ class ProvDocument(ProvBundle):
                 # a plain local path: characters that are URL syntax
                 # ('#', '?', ';', ':') are part of the file name
                 path = location
-            fd, name = tempfile.mkstemp()
+            # the temporary file is created next to the destination so that the
+            # final move is a rename within one file system (atomic)
+            fd, name = tempfile.mkstemp(dir=os.path.dirname(path) or os.curdir)
             stream = os.fdopen(fd, "wb")
-            serializer.serialize(stream, **args)
-            stream.close()
-            if hasattr(shutil, "move"):
-                shutil.move(name, path)
-            else:
-                shutil.copy(name, path)
-                os.remove(name)
+            try:
+                serializer.serialize(stream, **args)
+                stream.close()
+                if hasattr(shutil, "move"):
+                    shutil.move(name, path)
+                else:
+                    shutil.copy(name, path)
+                    os.remove(name)
+            except BaseException:
+                # do not leave the temporary file next to the destination
+                stream.close()
+                if os.path.exists(name):
+                    os.remove(name)
+                raise
 
     @staticmethod
     def deserialize(source=None, content=None, format="json", **args):
